@@ -213,8 +213,15 @@ def run_unit(unit_name, extra_args=(), keep=True, inject=None, inject_false=None
             res['status'] = 'undecided'
             res['undecided'].append(f"duplicate label {o['label']}")
         seen[o['label']] = o
+    degraded = getattr(g, 'degraded', {})
+    res['degraded'] = degraded
     for o in obl:
-        if o['label'] in failed:
+        if o['label'] in failed and o['region'] in degraded:
+            # the function lost a proof-hint anchor: a failure there may be proof incompleteness, not a defect
+            o['status'] = 'undecided'; o['detail'] = failed[o['label']][0]
+            res['status'] = 'undecided'
+            res['undecided'].append(f"{o['label']} fails in {o['region']}, whose proof hints lost their anchors ({'; '.join(degraded[o['region']])}): undecided")
+        elif o['label'] in failed:
             o['status'] = 'failed'; o['detail'] = failed[o['label']][0]
         elif res['status'] == 'undecided' and (hard_fail or o['region'] in undecided_regions):
             o['status'] = 'undecided'
